@@ -67,12 +67,14 @@ type heldSlot struct {
 	in    interface{} // the Go value handed to Marshal (the caller's own memory)
 	res   []byte      // the slice Marshal returned (NOT copied: that is the point)
 	data  []byte      // the buffer handed to Unmarshal
+	orig  [][]byte    // private copies of the caller's byte memory at the moment of the call
 	show  func() string
 }
 
 func heldMarshal(mode string, words []string) (s *heldSlot, status string) {
 	p, t, v := valgen.ParseTV(words)
 	s = &heldSlot{enc: true, words: words, in: v.Build()}
+	s.orig = collectBytes(reflect.ValueOf(s.in), nil, map[uintptr]bool{})
 	inMode(mode, func() {
 		defer func() {
 			if r := recover(); r != nil {
@@ -95,6 +97,7 @@ func heldMarshal(mode string, words []string) (s *heldSlot, status string) {
 func heldUnmarshal(mode string, words []string) (s *heldSlot, status string) {
 	p, t, data, g := valgen.ParseDec(words)
 	s = &heldSlot{words: words, data: append([]byte{}, data...)}
+	s.orig = [][]byte{append([]byte{}, data...)}
 	info := t.Info(p)
 	inMode(mode, func() {
 		defer func() {
@@ -193,6 +196,73 @@ func scribble(rv reflect.Value, x byte, seen map[uintptr]bool) {
 			bump(rv.Field(i))
 		}
 	}
+}
+
+// collectBytes: copies of every byte slice reachable from the value (the traversal of scribble)
+func collectBytes(rv reflect.Value, acc [][]byte, seen map[uintptr]bool) [][]byte {
+	if !rv.IsValid() {
+		return acc
+	}
+	if rv.CanInterface() {
+		switch rv.Interface().(type) {
+		case big.Int, *big.Int, inf.Dec, *inf.Dec, time.Time, *time.Time:
+			return acc
+		}
+	}
+	switch rv.Kind() {
+	case reflect.Ptr, reflect.Interface:
+		if !rv.IsNil() {
+			return collectBytes(rv.Elem(), acc, seen)
+		}
+	case reflect.Slice:
+		if rv.Len() == 0 || seen[rv.Pointer()] {
+			return acc
+		}
+		seen[rv.Pointer()] = true
+		if rv.Type().Elem().Kind() == reflect.Uint8 {
+			b := make([]byte, rv.Len())
+			for i := range b {
+				b[i] = byte(rv.Index(i).Uint())
+			}
+			return append(acc, b)
+		}
+		for i := 0; i < rv.Len(); i++ {
+			acc = collectBytes(rv.Index(i), acc, seen)
+		}
+	case reflect.Array:
+		for i := 0; i < rv.Len(); i++ {
+			acc = collectBytes(rv.Index(i), acc, seen)
+		}
+	case reflect.Map:
+		for _, k := range rv.MapKeys() {
+			acc = collectBytes(rv.MapIndex(k), acc, seen)
+		}
+	case reflect.Struct:
+		for i := 0; i < rv.NumField(); i++ {
+			if rv.Type().Field(i).PkgPath == "" {
+				acc = collectBytes(rv.Field(i), acc, seen)
+			}
+		}
+	}
+	return acc
+}
+
+// sameBytes: the same byte strings, as a multiset (a Go map is traversed in no fixed order)
+func sameBytes(a, b [][]byte) bool {
+	if len(a) != len(b) {
+		return false
+	}
+	cnt := map[string]int{}
+	for _, x := range a {
+		cnt[string(x)]++
+	}
+	for _, x := range b {
+		cnt[string(x)]--
+		if cnt[string(x)] < 0 {
+			return false
+		}
+	}
+	return true
 }
 
 func bump(e reflect.Value) {
@@ -360,6 +430,23 @@ func heldStep(slots map[int]*heldSlot, w []string) (res string) {
 			return fmt.Sprintf("s%d=%s", k, canonHex(s.words, s.res))
 		}
 		return fmt.Sprintf("s%d=%s", k, normNilBytes(s.show()))
+	case "i":
+		if len(w) != 2 {
+			return "bad-step"
+		}
+		k := atoiStep(w[1])
+		s := slots[k]
+		if s == nil {
+			return fmt.Sprintf("in%d=none", k)
+		}
+		now := [][]byte{s.data}
+		if s.enc {
+			now = collectBytes(reflect.ValueOf(s.in), nil, map[uintptr]bool{})
+		}
+		if sameBytes(now, s.orig) {
+			return fmt.Sprintf("in%d=same", k)
+		}
+		return fmt.Sprintf("in%d=changed", k)
 	case "m":
 		if len(w) != 3 {
 			return "bad-step"
@@ -579,7 +666,7 @@ func genHeld(g *valgen.Gen) (string, string) {
 	rounds := 1 + r.Intn(3)
 	for rd := 0; rd < rounds; rd++ {
 		for j, m := 0, 1+r.Intn(5); j < m; j++ {
-			switch r.Intn(9) {
+			switch r.Intn(10) {
 			case 0, 1, 2:
 				steps = append(steps, fmt.Sprintf("x %s %s", mode(), encText()))
 			case 3:
@@ -603,6 +690,8 @@ func genHeld(g *valgen.Gen) (string, string) {
 				}
 			case 8:
 				steps = append(steps, fmt.Sprintf("c %d", live[r.Intn(len(live))]))
+			case 9:
+				steps = append(steps, fmt.Sprintf("i %d", live[r.Intn(len(live))]))
 			}
 		}
 		perm := append([]int{}, live...)
@@ -612,6 +701,9 @@ func genHeld(g *valgen.Gen) (string, string) {
 		}
 		for _, s := range perm {
 			steps = append(steps, fmt.Sprintf("c %d", s))
+			if r.Intn(3) == 0 {
+				steps = append(steps, fmt.Sprintf("i %d", s))
+			}
 		}
 	}
 	procs := "1"
@@ -631,7 +723,8 @@ var fixedHeldOps = []string{
 	"held 1 u 0 s 4 blob 010203 bytes ; m 0 ff ; c 0",
 	"held 1 u 0 s 4 list blob 00000002000000020102000000010a slice bytes ; y s 4 text 7a7a7a7a7a7a7a7a7a7a7a7a7a7a7a string ; m 0 5a ; c 0",
 	"held 1 h 0 s 4 blob b 010203 ; m 0 ff ; c 0",
-	"held 1 h 0 s 4 list blob sl bytes 2 b 0102 b 0a ; m 0 ff ; c 0",
+	"held 1 h 0 s 4 list blob sl bytes 2 b 0102 b 0a ; i 0 ; m 0 ff ; c 0 ; i 0",
+	"held 1 u 0 s 4 inet 0a000001 ip ; i 0 ; h 1 s 4 inet ip 00000000000000000000ffff0a000001 ; i 1 ; c 0 ; c 1 ; m 1 0f ; c 1 ; i 1",
 	"held 1 h 0 s 4 tuple 2 int text st 2 i int32 7 s 6162 ; h 1 s 4 tuple 2 int text st 2 i int32 -7 s 7a7a ; u 2 s 4 int 0000002a k int32 ; c 0 ; c 1 ; c 2",
 	"conn 4 q ; s ; v 4 set smallint sl k int16 2 i int16 5 i int16 6 ; v 4 int i int32 9 ; v 4 set smallint sl k int16 2 i int16 7 i int16 8",
 	"conn 3 b ; s ; v 3 map ascii bigint map string k int64 1 s 6b6b i int64 72623859790382856 ; s ; v 3 list double sl f64 1 f64 4607182418800017408 ; v 3 set text sl string 1 s 61",
